@@ -16,6 +16,7 @@
         collide with a given data.
   Spec side: Atto/Spec/MultipartSpec.lean.  Helper lemmas: Atto/Lemmas/MultipartLemmas.lean.
 -/
+import Atto.Gen.Consts
 import Atto.Lemmas.MultipartLemmas
 import Atto.Props.C07
 namespace Atto
@@ -295,5 +296,10 @@ example : [str "0123456789abcdef", str "123456789abcdefg"].length ≤
     rcases this with rfl | rfl <;> exact ⟨by decide +kernel, by decide +kernel⟩)
 example : ∃ i, i < 10 ∧ (str "AAAAAAAAAAAAAAAA") = ((str "\r\n--AAAAAAAAAAAAAAAA").drop (i + 4)).take 16 :=
   ⟨0, by decide, by decide +kernel⟩
+
+
+/-- Tie to the source: the boundary drawn by `gen_boundary` has the 16 characters the collision
+    bound is stated for (`BOUNDARY_LEN`, extracted on this run). -/
+theorem C15_boundary_len : Consts.boundaryLen = 16 := by decide
 
 end Atto
